@@ -171,3 +171,37 @@ Definition required_py_raises : list (string * string) :=
   ; ("features.texture.cooccurence", "if len(f.shape) not in (2, 3)") ].
 Theorem python_raise_sites_present : forallb (fun p => has_raise (fst p) (snd p)) required_py_raises = true.
 Proof. vm_compute. reflexivity. Qed.
+
+(* ---- bounded time: the seeding loops of slic, `for (y = S/2; y < Ny; y += S)`, as a fuelled model.
+        Under the guard 0 < S (C11_slic_guarded) the loop ends within Ny + 1 iterations; with S = 0 it never ends. *)
+Close Scope string_scope.
+Fixpoint seed_loop (fuel : nat) (y S Ny : Z) (acc : list Z) : option (list Z) :=
+  match fuel with
+  | O => None                                    (* out of fuel: the model of "does not return" *)
+  | Datatypes.S k => if y <? Ny then seed_loop k (y + S) S Ny (y :: acc) else Some (rev acc)
+  end.
+
+Lemma seed_loop_ends S Ny : 0 < S -> forall fuel y acc, (Z.to_nat (Ny - y) < fuel)%nat ->
+  exists ys, seed_loop fuel y S Ny acc = Some (rev acc ++ ys) /\ Forall (fun v => y <= v < Ny) ys.
+Proof.
+  intros HS. induction fuel as [|k IH]; intros y acc Hf; [lia|].
+  cbn [seed_loop]. destruct (y <? Ny) eqn:E.
+  - apply Z.ltb_lt in E. destruct (IH (y + S) (y :: acc) ltac:(lia)) as (ys & R & F).
+    exists (y :: ys). split.
+    + rewrite R. cbn [rev]. rewrite <- app_assoc. reflexivity.
+    + constructor; [lia|]. eapply Forall_impl; [|exact F]. cbv beta. intros v Hv. lia.
+  - exists []. split; [rewrite app_nil_r; reflexivity | constructor].
+Qed.
+Theorem slic_seeding_terminates S Ny : 0 < S -> 0 <= Ny ->
+  exists ys, seed_loop (Z.to_nat Ny + 1) (Z.quot S 2) S Ny [] = Some ys /\ Forall (fun v => 0 <= v < Ny) ys.
+Proof.
+  intros HS HN. assert (Q : 0 <= Z.quot S 2) by (apply Z.quot_pos; lia).
+  destruct (seed_loop_ends S Ny HS (Z.to_nat Ny + 1)%nat (Z.quot S 2) [] ltac:(lia)) as (ys & R & F).
+  exists ys. split; [exact R|]. eapply Forall_impl; [|exact F]. cbv beta. intros v Hv. lia.
+Qed.
+(* without the guard: a zero spacing makes no progress, for every amount of fuel *)
+Theorem slic_seeding_hangs_without_guard Ny : forall fuel y acc, y < Ny -> seed_loop fuel y 0 Ny acc = None.
+Proof.
+  induction fuel as [|k IH]; intros y acc H; [reflexivity|]. cbn [seed_loop].
+  destruct (y <? Ny) eqn:E; [|apply Z.ltb_ge in E; lia]. rewrite Z.add_0_r. apply IH. exact H.
+Qed.
